@@ -10,6 +10,32 @@ use crate::core::{CheckDef, Ctx, Tier};
 use crate::exec::*;
 use crate::pipe::*;
 
+/// The type whose cells `RunResultValue::Success` holds: the function's value type, or the success variant of
+/// its PanicResult wrapper.
+pub fn success_type(prog: &Program, func: &cairo_lang_sierra::program::Function) -> Option<cairo_lang_sierra::ids::ConcreteTypeId> {
+    func.signature.ret_types.iter().rev().find(|t| !IMPLICITS.contains(&t.debug_name.as_ref().map(|s| s.as_str()).unwrap_or(""))).map(|t| {
+        let d = prog.type_declarations.iter().find(|d| d.id == *t);
+        match d.map(|d| &d.long_id.generic_args[..]) {
+            Some([cairo_lang_sierra::program::GenericArg::UserType(ut), cairo_lang_sierra::program::GenericArg::Type(ok), _]) if ut.debug_name.as_ref().map(|n| n.starts_with("core::panics::PanicResult::")).unwrap_or(false) => ok.clone(),
+            _ => t.clone(),
+        }
+    })
+}
+
+/// Address-free observable of a run result (None: not canonicalisable).
+pub fn observable(prog: &Program, sizes: &cairo_lang_sierra_type_size::TypeSizeMap, func: &cairo_lang_sierra::program::Function, value: &RunResultValue, memory: &[Option<starknet_types_core::felt::Felt>]) -> Option<String> {
+    match value {
+        RunResultValue::Panic(d) => Some(format!("panic {:?}", felts_str(d))),
+        RunResultValue::Success(vals) => {
+            let rt = success_type(prog, func);
+            match rt {
+                None => Some(format!("ok {:?}", felts_str(vals))),
+                Some(rt) => crate::canon::canon(prog, sizes, &rt, vals, memory, 0).map(|s| format!("ok {s}")),
+            }
+        }
+    }
+}
+
 /// True when values of the type are plain data: no addresses (arrays, boxes, nullables, dicts), no builtin
 /// pointers, no randomised state (EcState). Decided structurally from the type declarations, by allowlist.
 pub fn pointer_free(p: &Program, t: &cairo_lang_sierra::ids::ConcreteTypeId, depth: usize) -> bool {
@@ -76,7 +102,7 @@ fn run_mode(ctx: &mut Ctx, mode: Mode) {
             |ctx| {
                 ctx.count("snippets", 1);
                 // results[function][input index] = value under the baseline configuration
-                let mut baseline: BTreeMap<String, Vec<Option<RunResultValue>>> = BTreeMap::new();
+                let mut baseline: BTreeMap<String, Vec<Option<String>>> = BTreeMap::new();
                 let mut sierra_cache: Vec<(Cfg, Result<Program, String>)> = vec![];
                 for (cfg_i, cfg) in cfgs.iter().enumerate() {
                     let prog = match sierra_cache.iter().find(|(c, _)| c.same_frontend(cfg)) {
@@ -116,6 +142,7 @@ fn run_mode(ctx: &mut Ctx, mode: Mode) {
                         }
                     }
                     let mon = Monitors { vm: mode == Mode::Vm, gas: mode == Mode::Gas, ap: mode == Mode::Ap };
+                    let sizes = if mode == Mode::Diff { cairo_lang_sierra_type_size::ProgramRegistryInfo::new(&prog).ok().map(|i| i.type_sizes().clone()) } else { None };
                     for func in &prog.funcs {
                         let name = fname(func);
                         if !name.starts_with("test::") {
@@ -145,9 +172,18 @@ fn run_mode(ctx: &mut Ctx, mode: Mode) {
                             IMPLICITS.contains(&n.as_str()) || pointer_free(&prog, t, 0)
                         });
                         // a program that reads the gas counter observes gas, which may legitimately differ
-                        let comparable = comparable && !prog.libfunc_declarations.iter().any(|l| ["get_unspent_gas", "get_available_gas"].contains(&l.long_id.generic_id.0.as_str()));
+                        let gas_observing = prog.libfunc_declarations.iter().any(|l| ["get_unspent_gas", "get_available_gas"].contains(&l.long_id.generic_id.0.as_str()));
+                        // the type whose cells RunResultValue::Success holds: the function's value type, or the
+                        // success variant of its PanicResult wrapper
+                        let ret_inner: Option<cairo_lang_sierra::ids::ConcreteTypeId> = func.signature.ret_types.iter().rev().find(|t| !IMPLICITS.contains(&t.debug_name.as_ref().map(|s| s.as_str()).unwrap_or(""))).map(|t| {
+                            let d = prog.type_declarations.iter().find(|d| d.id == *t);
+                            match d.map(|d| &d.long_id.generic_args[..]) {
+                                Some([cairo_lang_sierra::program::GenericArg::UserType(ut), cairo_lang_sierra::program::GenericArg::Type(ok), _]) if ut.debug_name.as_ref().map(|n| n.starts_with("core::panics::PanicResult::")).unwrap_or(false) => ok.clone(),
+                                _ => t.clone(),
+                            }
+                        });
                         if mode == Mode::Diff && cfg_i == 0 {
-                            ctx.count(if comparable { "functions_with_pointer_free_result" } else { "functions_with_pointer_result_not_compared" }, 1);
+                            ctx.count(if comparable { "functions_with_pointer_free_result" } else { "functions_with_pointer_result_compared_after_deref" }, 1);
                         }
                         let base = baseline.entry(name.clone()).or_default();
                         for (ii, args) in inputs.iter().enumerate() {
@@ -171,22 +207,45 @@ fn run_mode(ctx: &mut Ctx, mode: Mode) {
                                         None
                                     }
                                 };
-                                if mode == Mode::Diff && !comparable {
+                                if mode == Mode::Diff && gas_observing {
                                     continue;
                                 }
                                 if mode == Mode::Diff {
+                                    // the observable: felts for pointer-free results, otherwise the value with every
+                                    // array/box/nullable dereferenced through the final memory (addresses removed)
+                                    let obs: Option<String> = match &v {
+                                        None => None,
+                                        Some(RunResultValue::Panic(d)) => Some(format!("panic {:?}", felts_str(d))),
+                                        Some(RunResultValue::Success(vals)) => {
+                                            if comparable {
+                                                Some(format!("ok {:?}", felts_str(vals)))
+                                            } else {
+                                                let full = run(&compiled, func, args, Some(*gas)).1;
+                                                match (&full, &sizes, &ret_inner) {
+                                                    (Some(full), Some(sizes), Some(rt)) => crate::canon::canon(&prog, sizes, rt, vals, &full.memory, 0).map(|s| format!("ok {s}")),
+                                                    _ => None,
+                                                }
+                                            }
+                                        }
+                                    };
+                                    if obs.is_none() && v.is_some() {
+                                        ctx.count("results_not_canonicalisable", 1);
+                                    }
                                     if cfg_i == 0 {
-                                        base.push(v);
-                                    } else if let (Some(Some(b)), Some(v)) = (base.get(ii), &v) {
+                                        base.push(obs);
+                                    } else if let (Some(Some(b)), Some(o)) = (base.get(ii), &obs) {
                                         ctx.count("differential_comparisons", 1);
-                                        let oog = |x: &RunResultValue| matches!(x, RunResultValue::Panic(d) if d.len() == 1 && d[0] == starknet_types_core::felt::Felt::from_bytes_be_slice(b"Out of gas"));
-                                        if oog(b) || oog(v) {
+                                        if !comparable {
+                                            ctx.count("differential_comparisons_dereferenced", 1);
+                                        }
+                                        let oog = |x: &String| x.starts_with("panic") && x.contains("375233589013918064796019");
+                                        if oog(b) || oog(o) {
                                             ctx.count("inconclusive_out_of_gas", 1);
-                                        } else if b != v {
+                                        } else if b != o {
                                             ctx.violation(
                                                 "result-depends-on-configuration",
-                                                format!("{} vs {}: {} != {}", cfgs[0].name(), cfg.name(), value_json(b), value_json(v)),
-                                                json!({"snippet":snip.name,"function":name,"args":args_str(args),"baseline_cfg":cfgs[0].name(),"cfg":cfg.name(),"baseline":value_json(b),"value":value_json(v),"source":snip.code}),
+                                                format!("{} vs {}: {} != {}", cfgs[0].name(), cfg.name(), b, o),
+                                                json!({"snippet":snip.name,"function":name,"args":args_str(args),"baseline_cfg":cfgs[0].name(),"cfg":cfg.name(),"baseline":b,"value":o,"source":snip.code}),
                                             );
                                         }
                                     }
@@ -234,8 +293,8 @@ pub static C02: CheckDef = CheckDef {
 pub static C04: CheckDef = CheckDef {
     id: "C04",
     level: "exploration",
-    rule: "Execution space x configurations {default(linear solvers), default+legacy solvers, optimizations disabled, ...} x gas {ample, required, +100, +1070, +5000}. Oracle per run (the property's formula): 100*steps + 70*range_checks + sum_b price(b)*uses(b) <= (gas - gas_left) + 100, steps = trace entries whose pc lies in the user program (entry header/footer excluded, as the runner itself does), builtin uses from ExecutionResources, prices from the runner's token_gas_cost; functions without a gas counter are compared with the statically declared function cost; and steps <= gas/100 + 1. mins.gas_slack_min and counters.gas_tight_runs show the inequality is tight (slack 0 is reached), so one undercharged step on any executed path flips it.",
-    assumptions: &["range_check96 and memory holes are not priced: the property's formula does not state them", "trace from a second, raw run of the same deterministic program"],
+    rule: "Execution space x configurations {default(linear solvers), default+legacy solvers, optimizations disabled, ...} x gas {ample, required, +100, +1070, +5000}. Oracle per run (the property's formula): 100*steps + 70*range_checks + 56*range_check96s + sum_b price(b)*uses(b) <= (gas - gas_left) + 100, steps = trace entries between the entry-code header and footer (exactly the runner's n_steps convention, so compiler-appended routines such as circuit evaluation count), builtin uses from ExecutionResources, prices from the runner's token_gas_cost; functions without a gas counter are compared with the statically declared function cost; and steps <= gas/100 + 1. mins.gas_slack_min and counters.gas_tight_runs show the inequality is tight (slack 0 is reached), so one undercharged step on any executed path flips it.",
+    assumptions: &["memory holes are not priced (the property's formula does not state them); range_check96 is priced 56 as in ConstCost::cost()", "trace from a second, raw run of the same deterministic program"],
     run: run_c04,
     stack_mb: 16,
     item_timeout_s: 120,
